@@ -13,11 +13,19 @@ package keyed
 // start); pred(ch) is the channel it waits for, xrun(ch) the goroutine that runs it.
 //   E1  an instance's exitedCh is closed only after the channel it waited for was closed
 //   callback 1 in execute: the managed function is entered only after the predecessor channel was closed
+//   rlast(rr)  the exitedCh of the instance most recently started for record rr's key chain (a record
+//       created by ResetRoutine inherits it from the record it replaces); it changes only under k.mtx
+//   H2  every record in the map carries the head of its chain: its exitedCh is rlast, or rlast is closed
+//   go 1 in start: a new instance is given rlast as predecessor
 //   SetKey.keepretry: a non-restarting SetKey leaves a pending retry timer alone
 //
 //@ ghostmap xowner: ref -> ref once
 //@ ghostmap xrun: ref -> ref owned
 //@ ghostmap pred: ref -> ref by xrun
+//@ ghostmap rlast: ref -> ref shared
+//@ ghostmap chof: ref -> ref once
+//@ ghostmap xfin: ref -> ref owned
+//@ ghostmap xdone: ref -> bool by xfin
 //
 //@ object Keyed
 //@   props C06 C07 C13
@@ -28,10 +36,16 @@ package keyed
 //@   inv K0[C06]: this.routines != nil && this.ctorCb != nil
 //@   inv K1[C06]: forall key: any {this.routines[key]} :: in(this.routines, key) ==> this.routines[key] != nil
 //@   inv K2[C06]: forall key: any {this.routines[key]} :: in(this.routines, key) ==> this.routines[key].k == this
+//@   inv H2[C07]: forall key: any {this.routines[key]} :: in(this.routines, key) ==> this.routines[key].exitedCh == rlast(this.routines[key]) || (this.routines[key].exitedCh == nil && (rlast(this.routines[key]) == nil || closed(rlast(this.routines[key]))))
+//@   stable SH2: forall key: any {this.routines[key]} :: in(this.routines, key) ==> this.routines[key].exitedCh == rlast(this.routines[key]) || (this.routines[key].exitedCh == nil && (rlast(this.routines[key]) == nil || closed(rlast(this.routines[key]))))
+//@   inv R1[C07]: forall rr: *runningRoutine {rr.k} :: rr.k == this && rr.ctx != nil && !rr.exited ==> rr.exitedCh != nil && chof(rr.ctx) == rr.exitedCh
+//@   inv R2[C07]: forall rr: *runningRoutine {rr.k} :: rr.k == this && rr.ctx != nil && rr.exited ==> chof(rr.ctx) != nil && xdone(chof(rr.ctx))
 //@   inv K3[C06]: forall key: any {this.routines[key]} :: in(this.routines, key) ==> this.routines[key].key == key
 //
 //@ ginv E0: forall ch: ref {xowner(ch)} :: xowner(ch) != nil ==> ch != nil && allocated(ch) && madein(ch, "(*runningRoutine).start")
 //@ ginv E1: forall ch: ref {xowner(ch)} :: xowner(ch) != nil && closed(ch) ==> xrun(ch) == nil && (pred(ch) != nil ==> closed(pred(ch)))
+//@ ginv E3: forall ch: ref {xdone(ch)} :: xdone(ch) ==> xfin(ch) == nil
+//@ gtrans FM: forall ch: ref {xdone(ch)} :: old(xdone(ch)) ==> xdone(ch)
 //@ ginv E2: forall ch: ref {xrun(ch)} :: xrun(ch) != nil ==> xowner(ch) != nil && !closed(ch)
 //
 //@ func newRunningRoutine
@@ -41,21 +55,30 @@ package keyed
 //
 //@ func (*runningRoutine).start
 //@   props C07 C13
-//@   inline
 //@   opt holds = k.mtx
+//@   ensures keepmap: r.k.routines == old(r.k.routines) && r.k.ctx == old(r.k.ctx) && (forall key: any {r.k.routines[key]} :: in(r.k.routines, key) == old(in(r.k.routines, key)) && r.k.routines[key] == old(r.k.routines[key]))
+//@   ensures keeptimers: forall rr: *runningRoutine {rr.deferRemove} :: rr.deferRemove == old(rr.deferRemove)
 //@   opt frame = skip
 //@   requires r != nil && r.k != nil && ctx != nil
+//@   requires current: in(r.k.routines, r.key) && r.k.routines[r.key] == r
+//@   requires chain: waitCh == rlast(r) || rlast(r) == nil || closed(rlast(r))
+//@   assert go 1: chain: waitCh == rlast(r) || rlast(r) == nil || closed(rlast(r))
+//@   ghost go 1: rlast(r) := exitedCh
 //@   ghost go 1: xowner(exitedCh) := r.k
 //@   ghost go 1: xrun(exitedCh) := me
 //@   ghost go 1: pred(exitedCh) := waitCh
 //@   ghost go 1: xrun(exitedCh) := child
+//@   ghost go 1: xfin(exitedCh) := child
+//@   ghost go 1: chof(r.ctx) := exitedCh
 //
 //@ func (*runningRoutine).execute
 //@   props C07 C13
 //@   opt frame = skip
-//@   opt inherits = xrun
+//@   opt inherits = xrun xfin
 //@   requires r != nil && r.k != nil && ctx != nil && cancel != nil && r.routine != nil
-//@   requires mine: exitedCh != nil && xrun(exitedCh) == me && xowner(exitedCh) == r.k && pred(exitedCh) == waitCh
+//@   requires mine: exitedCh != nil && xrun(exitedCh) == me && xfin(exitedCh) == me && xowner(exitedCh) == r.k && pred(exitedCh) == waitCh && chof(ctx) == exitedCh
+//@   ghost unlock 1: xdone(exitedCh) := true
+//@   ghost unlock 1: xfin(exitedCh) := nil
 //@   assert select 1: selects(waitCh) && selects(done(ctx))
 //@   assert callback 1: handover: waitCh == nil || closed(waitCh)
 //@   ghost close 1: xrun(exitedCh) := nil
@@ -90,6 +113,8 @@ package keyed
 //@   opt frame = skip
 //@   requires k != nil
 //@   loop 1 invariant inv: ginvs() && k.routines != nil && k.ctorCb != nil
+//@   loop 1 invariant chain: forall key: any {k.routines[key]} :: in(k.routines, key) ==> k.routines[key].exitedCh == rlast(k.routines[key]) || (k.routines[key].exitedCh == nil && (rlast(k.routines[key]) == nil || closed(rlast(k.routines[key]))))
+//@   loop 1 invariant records: forall rr: *runningRoutine {rr.k} :: rr.k == k && rr.ctx != nil ==> chof(rr.ctx) != nil && ((!rr.exited ==> rr.exitedCh != nil && chof(rr.ctx) == rr.exitedCh) && (rr.exited ==> xdone(chof(rr.ctx))))
 //@   loop 1 invariant entries: forall key: any {k.routines[key]} :: in(k.routines, key) ==> k.routines[key] != nil && k.routines[key].k == k && k.routines[key].key == key
 //
 //@ func (*Keyed).ClearContext
@@ -136,4 +161,6 @@ package keyed
 //@   opt holds = mtx
 //@   opt frame = skip
 //@   requires k != nil
+//@   opt inline-calls = start
+//@   ghost aftercall newRunningRoutine: rlast(ret) := rlast(csold(k.routines[key]))
 //@   loop 1 invariant inv: true
